@@ -136,6 +136,7 @@ type server struct {
 	wroteResp atomic.Int32 // parseable responses written on the newest connection
 	wroteReq  atomic.Int32
 	killer    atomic.Bool // something was written that may kill the client (frame, garbage, close)
+	hungUp    atomic.Int32 // index of the connection the server closed last (0 = none)
 	onAccept  func()      // called when a new connection is accepted
 
 	tunMu   sync.Mutex
@@ -600,12 +601,34 @@ func (s *server) perform(c net.Conn, idx int, req *base.Request, acts []Action) 
 			time.Sleep(time.Duration(a.Ms) * time.Millisecond)
 		case "udp":
 			s.sendUDP(a.Ch, a.Payload)
+		case "drip":
+			// the request stays unanswered while unrelated messages keep coming
+			end := time.Now().Add(time.Duration(a.For) * time.Millisecond)
+			for i := 0; time.Now().Before(end); i++ {
+				var b []byte
+				switch a.Method {
+				case "options":
+					b = []byte(fmt.Sprintf("OPTIONS rtsp://%s/stream RTSP/1.0\r\nCSeq: %d\r\n\r\n", s.host, 9000+i))
+				case "frame":
+					p := []byte{0x80, 96, 0, byte(i), 0, 0, 0, 1, 1, 2, 3, 4, 0x65, 1, 2, 3}
+					b = append([]byte{'$', byte(a.Ch), 0, byte(len(p))}, p...)
+				default: // a response to something that was never asked
+					b = []byte(fmt.Sprintf("RTSP/1.0 200 OK\r\nCSeq: %d\r\nServer: scripted\r\n\r\n", 700000+i))
+				}
+				c.SetWriteDeadline(time.Now().Add(time.Second))
+				if _, err := c.Write(b); err != nil {
+					break
+				}
+				time.Sleep(time.Duration(a.Every) * time.Millisecond)
+			}
 		case "close":
 			s.killer.Store(true)
+			s.hungUp.Store(int32(idx))
 			c.Close()
 			return true
 		case "rst":
 			s.killer.Store(true)
+			s.hungUp.Store(int32(idx))
 			nc := c
 			if t, ok := c.(*tls.Conn); ok {
 				nc = t.NetConn()
